@@ -287,12 +287,13 @@ def load_corpus():
 
 # ---- reader source tie ---------------------------------------------------------------------------------
 
-TIE_FORMATS = ("xyz", "rawxyz")
+TIE_FORMATS = ("xyz", "rawxyz", "discus", "pdffit")
 
 
 def reader_tie_formats(tie_ok, tie_info):
     """formats whose reader tie (DS.Props.SrcReaders) is broken: named by the broken theorems / untranslatable methods
-    (`xyz_*`, `parseXyz_eq`, `rawxyz_*`, `parseRawxyz_eq`); when nothing can be attributed, all tied formats"""
+    (`xyz_*`, `parseXyz_eq`, `rawxyz_*`, `parseRawxyz_eq`, `discus*`, `parseDiscus_eq`, `pdffit*`, `parsePdffit_eq`); when nothing can
+    be attributed, all tied formats"""
     if tie_ok:
         return set()
     names = list(tie_info.get("broken_theorems") or [])
@@ -302,7 +303,11 @@ def reader_tie_formats(tie_ok, tie_info):
     out = set()
     for n in names:
         low = n.lower()
-        if "rawxyz" in low:
+        if "discus" in low:
+            out.add("discus")
+        elif "pdffit" in low:
+            out.add("pdffit")
+        elif "rawxyz" in low:
             out.add("rawxyz")
         elif "xyz" in low:
             out.add("xyz")
@@ -393,7 +398,7 @@ def run(ck):
             "%d sampled per format, stratified by seed document" % QUICK_MUTANTS if ck.tier == "quick" else "all"))
     # 1. Lean obligations over the generated handler tuples
     ok, info = ck.lean_obligations("DS.Props.C13", extra_targets=["DS.Gen.Handlers"])
-    # reader tie: `xyzRun` / `rawxyzRun` ARE the current source of P_xyz.parseLines / P_rawxyz.parseLines (translate/src_readers.py:
+    # reader tie: `xyzRun` / `rawxyzRun` / `parseDiscus` / `parsePdffit` ARE the current source of P_xyz / P_rawxyz / P_discus / P_pdffit .parseLines (translate/src_readers.py:
     # statement-by-statement transliteration; DS.Props.SrcReaders proves the models equal to it for every abstract document)
     tie_ok, tie_info = ck.source_tie("DS.Props.SrcReaders", groups=("readers",))
     tie_broken_fmts = reader_tie_formats(tie_ok, tie_info)
@@ -573,7 +578,8 @@ def run(ck):
         ck.notes.append("source tie DS.Props.SrcReaders broken (%s): search widened for %s (x2 single-fault corruptions, x4 random / "
                         "multi-fault documents)" % (", ".join(tie_info.get("broken_theorems") or tie_info.get("failed_modules") or ["translator"]),
                                                     ", ".join(sorted(tie_broken_fmts))))
-    ck.tie_verdict(tie_ok, tie_info, "C13 readers: parsers/p_xyz.py P_xyz.parseLines, parsers/p_rawxyz.py P_rawxyz.parseLines")
+    ck.tie_verdict(tie_ok, tie_info, "C13 readers: parsers/p_xyz.py P_xyz.parseLines, parsers/p_rawxyz.py P_rawxyz.parseLines, parsers/p_discus.py "
+                   "P_discus.parseLines with its record helpers, parsers/p_pdffit.py P_pdffit.parseLines with _parse_shape")
     if not ok and not ck.violations:
         ck.fail("lean-build", "Lean obligations of C13 no longer check: %r" % (info["failed_modules"],),
                 {"kind": "proof-obligation", "theorem": info["failed_modules"], "errors": info["errors"],
@@ -586,10 +592,11 @@ def run(ck):
     ck.coverage["model_escapes"] = [e for e in esc if e not in ("-",)]
     ck.coverage["reader_tie"] = {
         "module": "DS.Props.SrcReaders", "ok": tie_ok, "tied": list(TIE_FORMATS),
-        "not_tied": "pdffit, discus, xcfg, pdb, cif: control flow tied differentially only",
+        "not_tied": "xcfg, pdb, cif: control flow tied differentially only",
         "broken_formats": sorted(tie_broken_fmts)}
     ck.coverage["trusted_base"] += [
-        "translate/src_readers.py (statement-by-statement transliteration of P_xyz.parseLines / P_rawxyz.parseLines; its conventions "
+        "translate/src_readers.py (statement-by-statement transliteration of P_xyz.parseLines / P_rawxyz.parseLines / P_discus.parseLines "
+        "with its record helpers, line iterator and dispatch dictionary / P_pdffit.parseLines with _parse_shape; its conventions "
         "- tokens are non-empty strings, addNewAtom(str, xyz=list of floats) does not raise, message building does not raise - are "
         "listed at the top of the file)",
         "translate/handlers.py (ast reading of the except clauses)",
